@@ -44,7 +44,65 @@ func keyKindOf(pub crypto.PublicKey) string {
 
 // parseKeyHex parses the encoding of a protocol.PublicKey structure.
 func parseKeyHex(h string) (crypto.PublicKey, bool) {
-	b := unhexDash(h)
+	return parseKeyBytes(unhexDash(h))
+}
+
+// parseKeyBytes is the key-parsing oracle of the voucher / protocol models. For the X509 and X5CHAIN encodings it does
+// not use the library's PublicKey.Public: the three fields are taken apart here and the key comes from the standard
+// library alone (PKIX key; the first certificate of the chain, every certificate of which must parse), with the
+// library's one rule on top (an EC key type needs an ECDSA key, an RSA key type an RSA key). COSE keys go through the
+// library's cose.Key parser (its rules for labels and curves are the library's own data model).
+func parseKeyBytes(b []byte) (crypto.PublicKey, bool) {
+	var raw struct {
+		Type     uint8
+		Encoding uint8
+		Body     cbor.RawBytes
+	}
+	if err := cbor.Unmarshal(b, &raw); err != nil {
+		return nil, false
+	}
+	family := func(pub any) (crypto.PublicKey, bool) {
+		switch raw.Type {
+		case 10, 11:
+			k, ok := pub.(*ecdsa.PublicKey)
+			return k, ok
+		case 1, 5, 6:
+			k, ok := pub.(*rsa.PublicKey)
+			return k, ok
+		}
+		return nil, false
+	}
+	switch raw.Encoding {
+	case 1: // X509: bstr(DER SubjectPublicKeyInfo)
+		var der []byte
+		if err := cbor.Unmarshal(raw.Body, &der); err != nil {
+			return nil, false
+		}
+		pub, err := x509.ParsePKIXPublicKey(der)
+		if err != nil {
+			return nil, false
+		}
+		return family(pub)
+	case 2: // X5CHAIN: array of bstr(DER certificate); the key is the first certificate's
+		var ders []*[]byte
+		if err := cbor.Unmarshal(raw.Body, &ders); err != nil || len(ders) == 0 {
+			return nil, false
+		}
+		var first *x509.Certificate
+		for i, d := range ders {
+			if d == nil {
+				return nil, false
+			}
+			c, err := x509.ParseCertificate(*d)
+			if err != nil {
+				return nil, false
+			}
+			if i == 0 {
+				first = c
+			}
+		}
+		return family(first.PublicKey)
+	}
 	var pk protocol.PublicKey
 	if err := cbor.Unmarshal(b, &pk); err != nil {
 		return nil, false
@@ -79,7 +137,7 @@ func unhexDash(h string) []byte {
 type voucherVector struct {
 	decoded                  bool
 	hdr, mfg, cch, ents, own string // ok | fail | panic
-	dcc, mcc                string // VerifyDeviceCertChain / VerifyManufacturerCertChain (X.509 path building: oracle-only steps)
+	dcc, mcc                 string // VerifyDeviceCertChain / VerifyManufacturerCertChain (X.509 path building: oracle-only steps)
 	ownerKey                 string // hex of marshalled key structure
 }
 
